@@ -149,9 +149,11 @@ def runSock (prop : String) (f : List String) (obsS : String) : Verdict :=
     let mAll := joinWith ";" (mo.reverse ++ [pre, post])
     let iAll := joinWith ";" (io.reverse ++ closing)
     -- C05/C06 on the datagrams actually received (only when every write was visible and accepted)
+    let decoyHit := closing.any fun x => x.startsWith "decoy"
     let v2 : Option Viol := match v with
       | some x => some x
       | none =>
+        if decoyHit then some ⟨"C13", "datagrams were sent to an address other than the first one the given address resolves to"⟩ else
         if buffered && clean && !gone && !(closing.any fun x => (x.splitOn "/").any fun y => (y.splitOn ",").any (·.startsWith "L")) then
           let dropObs : OpObs B := match closing with
             | [_, dp] => (match dp.splitOn "/" with
@@ -203,7 +205,19 @@ def runMt (_prop : String) (f : List String) (obsS : String) : Verdict :=
     let c : Cfg B := ⟨cap, [10]⟩
     let dgs := if dgS == "-" then [] else (dgS.splitOn ",").map unhex
     let fail (p cl : String) : Verdict := ⟨true, obsS.take 200 |>.toString, "", some (p, cl), ["mt-" ++ kind], false⟩
+    let badN : Nat := (((summary.drop 3).toString.splitOn ".").headD "0").toNat?.getD 0
+    if badN ≥ 1000000 then
+      fail "C12+C20" "a sink call panicked under concurrency (poisoned lock or arithmetic)" else
     if !summary.startsWith "bad0." then fail "C12" "an emit or flush failed or returned a wrong byte count under concurrency" else
+    if kind == "unix" then
+      -- unbuffered sink: one datagram per emit, stats exact under concurrency (C14)
+      let ids := dgs.filterMap parseTid
+      if ids.length ≠ dgs.length ∨ ids.length ≠ threads * per ∨ ids.eraseDups.length ≠ ids.length then
+        fail "C13" "unbuffered sink under concurrency: datagrams are not exactly the emitted metrics, once each"
+      else if statsS ≠ s!"S{(dgs.map List.length).foldl (· + ·) 0}.{dgs.length}.0.0" then
+        fail "C14" "socket stats are not exact under concurrent emitters"
+      else ⟨true, "", "", none, ["mt-unix-unbuffered"], false⟩
+    else
     -- framing of every datagram
     let framed := dgs.all fun d =>
       (d.getLast? == some 10 && d.length ≤ cap) || (!d.contains 10 && d.length + 1 > cap)
@@ -211,7 +225,8 @@ def runMt (_prop : String) (f : List String) (obsS : String) : Verdict :=
     let lines := dgs.flatMap splitLines
     let ids := lines.filterMap parseTid
     if ids.length ≠ lines.length then fail "C12" "a line of the combined stream is not a metric that was emitted" else
-    if ids.length ≠ threads * per then fail "C12" "acknowledged metrics are missing from or duplicated in the combined stream" else
+    let lossy := kind == "budp" && ids.length < threads * per   -- the kernel may drop loopback UDP under load: not concluded from
+    if ids.length ≠ threads * per && !lossy then fail "C12" "acknowledged metrics are missing from or duplicated in the combined stream" else
     if ids.eraseDups.length ≠ ids.length then fail "C12" "a metric appears twice in the combined stream" else
     -- per-thread program order of buffered metrics
     let buffered := (lines.zip ids).filter fun (l, _) => l.length + 1 ≤ cap
@@ -223,7 +238,7 @@ def runMt (_prop : String) (f : List String) (obsS : String) : Verdict :=
     let statsOk := kind != "bunix" || statsS == s!"S{(dgs.map List.length).foldl (· + ·) 0}.{dgs.length}.0.0"
     if !statsOk then fail "C14" "socket stats are not exact under concurrent emitters" else
     -- flush-free runs: the datagram boundaries are the model's for the observed linearisation
-    if flS == "0" then
+    if flS == "0" && !lossy then
       let bl := buffered.map (·.1)
       let model := (specLife c (bl.map Op.emit) []).flatMap fun o => o.atts.filterMap fun a =>
         match a with | .group ms none => some (frame c ms) | _ => none
